@@ -19,7 +19,7 @@ CLONEABLE = ["huni", "gen", "cfg", "mbuf", "itern"]
 # rawdata->advance() on an object WITHOUT stage buffer creates an untyped buffer: value stores assigned later are never
 # released (docs/C15_rawdata_advance.diff).  The model is the patched code.  While the patch is not in the tree the
 # generator emits `advance` only where the object is known to own a stage buffer; set to True after the fix is committed.
-ADVANCE_EMPTY = False or os.environ.get("VERIF_C15_ADVANCE_EMPTY") == "1"   # the environment switch is for trying it out
+ADVANCE_EMPTY = True   # constant since the fix f56bd43 is committed: a returning defect is reported
 RAW_OPS = ["modify 0 0 0", "modify 1 1 1", "modify 0 2 2", "modify 0 0 3", "modify 1 0 4", "rget 0 6", "rget 1 7",
            "setin 0 6", "setin 1 7", "aclear 6", "rread 0", "new buf 7", "aclone 7 6"]
 BKINDS = ["buf", "hbuf"]
